@@ -87,6 +87,15 @@ func (w *World) Tracef(format string, args ...interface{}) {
 	simrt.Note(format, args...)
 }
 
+var processSeq int
+
+// ProcUniq returns a number unique within this worker process (never logged): in-process
+// listener addresses must not collide with leftovers of earlier runs in lime's global table.
+func ProcUniq() int {
+	processSeq++
+	return processSeq
+}
+
 // Uniq returns a small unique number for this run.
 func (w *World) Uniq() int {
 	w.mu.Lock()
